@@ -364,3 +364,69 @@ def same_object(ctx, res):
                    f"{[norm(d) for d in desc]}: the compiled and the Python "
                    f"validator can see different collections")
     res.floor(2)
+
+
+# ---------------------------------------------------------------------------
+# C01.tested-is-returned
+
+CONVERTERS = {"strx", "str", "int", "float", "complex", "bytes", "bool",
+              "list", "tuple", "operator.index", "index", "repr"}
+
+
+@rule("C01.tested-is-returned", ["C01"],
+      "a validate method that decides acceptance on a converted form of the "
+      "value (strx(value), int(value), ...) returns that converted object, "
+      "not the raw argument it never tested")
+def tested_is_returned(ctx, res):
+    repo = get_pyrepo(ctx)
+    n = 0
+    for rel in FILES:
+        mod = repo.module(rel)
+        for ci in mod.classes.values():
+            for name, fn in ci.methods.items():
+                if not VALIDATE_RE.match(name) or len(fn.args.args) < 4:
+                    continue
+                valp = fn.args.args[3].arg
+                convs = [c for c in ast.walk(fn) if isinstance(c, ast.Call)
+                         and norm(c.func) in CONVERTERS and len(c.args) == 1
+                         and isinstance(c.args[0], ast.Name)
+                         and c.args[0].id == valp and not c.keywords]
+                if not convs:
+                    continue
+                tests = [t.test for t in ast.walk(fn)
+                         if isinstance(t, (ast.If, ast.IfExp, ast.While))]
+                in_test = {id(x) for t in tests for x in ast.walk(t)}
+                # names bound to a converted form and then tested
+                bound = {}
+                for a in ast.walk(fn):
+                    if isinstance(a, ast.Assign) and len(a.targets) == 1 \
+                            and isinstance(a.targets[0], ast.Name) \
+                            and any(c is a.value or c in list(ast.walk(a.value))
+                                    for c in convs):
+                        bound[a.targets[0].id] = a
+                tested_names = {x.id for t in tests for x in ast.walk(t)
+                                if isinstance(x, ast.Name)}
+                deciding = [c for c in convs if id(c) in in_test] + [
+                    a.value for v, a in bound.items()
+                    if v in tested_names and v != valp]
+                rebinds = valp in bound      # value = strx(value)
+                if not deciding and not rebinds:
+                    continue
+                n += 1
+                key = f"{ci.name}.{name}"
+                res.instance(key, mod.loc(fn),
+                             converted=[norm(c) for c in convs][:3],
+                             rebinds_parameter=rebinds)
+                if rebinds and not deciding:
+                    res.oblige(True, key, "", "")
+                    continue
+                raws = [r for r in ast.walk(fn) if isinstance(r, ast.Return)
+                        and isinstance(r.value, ast.Name)
+                        and r.value.id == valp and not rebinds]
+                res.oblige(not raws, f"{key}:returns-untested",
+                           mod.loc(raws[0]) if raws else mod.loc(fn),
+                           f"{key} decides on `{norm(deciding[0])[:50]}` but "
+                           f"returns the raw `{valp}`: the stored object is "
+                           f"one the test never saw (an int, a str subclass, "
+                           f"... is kept unconverted)")
+    res.floor(2)
